@@ -171,3 +171,66 @@ TASKS["layer1/Circuit.inputs"] = refine_task("Circuit.inputs", {"": []}, [])
 TASKS["layer1/Circuit.io"] = refine_task("Circuit.io", {"": []}, [])
 TASKS["layer1/Circuit.startpoints"] = refine_task("Circuit.startpoints", {"no-arg": []}, [])
 TASKS["layer1/Circuit.endpoints"] = refine_task("Circuit.endpoints", {"no-arg": []}, [])
+
+
+# ---- uid: `while f"{n}_{i}" in self.graph or ... in blocked: i = i+1 | i*7`
+def _uid_loop(ex, s, st, it, ordinal):
+    def inv(ex, stx):
+        return ex.num(stx.env["i"]) >= 0
+    return ex.invariant_while(s, st, ordinal, inv, mod_locals=["i"])
+
+
+def uid_task(ctx):
+    qual = "Circuit.uid"
+    fn, seg, sha = engine.find_function(F, qual)
+    ex = _orig_ex(ctx, qual + "[str]", {1: _uid_loop})
+    ex.summaries = {k: v for k, v in ex.summaries.items() if k != qual}
+    st0 = State({}, {}, [])
+    me = verify.mk_circuit(ex, st0, "self")
+    n = _arg(ex, "str", "n")
+    g0 = st0.g(me)
+    for i, o in enumerate(verify.bind_and_run(ex, fn, st0, {"self": me, "n": n})):
+        if o.kind != "return":
+            ctx.oblige(f"{qual}[str]/post#{i}:never-raises", o.st.pc, z3.BoolVal(False), "post")
+            continue
+        r = ex.name_term(o.value)
+        ctx.oblige(f"{qual}[str]/post#{i}:result-is-not-a-node", o.st.pc, z3.Not(g0.node(r)), "post")
+        ctx.oblige(f"{qual}[str]/post#{i}:free-name-is-kept", o.st.pc, z3.Implies(z3.Not(g0.node(n.term)), r == n.term), "post")
+        ctx.oblige(f"{qual}[str]/frame#{i}", o.st.pc, verify.heap_eq(ex, o.st.heap, st0.heap, list(st0.heap)), "frame")
+    return {"function": f"{F}::{qual}", "sha256": sha, "lines": [fn.lineno, fn.end_lineno], "variants": ["str (blocked=None)"]}
+
+
+TASKS["layer1/Circuit.uid"] = uid_task
+
+
+def add_task(uid):
+    def run(ctx):
+        qual = "Circuit.add"
+        fn, seg, sha = engine.find_function(F, qual)
+        info = {"function": f"{F}::{qual}", "sha256": sha, "lines": [fn.lineno, fn.end_lineno], "variants": []}
+        from pyvc import spec
+        from pyvc.engine import NONE, TypeV
+        shapes = {"none": lambda ex, tag: NONE, "str": lambda ex, tag: _arg(ex, "str", tag), "list": lambda ex, tag: _arg(ex, "list", tag)}
+        for fi_shape in shapes:
+            for fo_shape in shapes:
+                label = f"{qual}[uid={uid},fanin={fi_shape},fanout={fo_shape}]"
+                ex = _orig_ex(ctx, label, {})
+                ex.summaries = {k: v for k, v in ex.summaries.items() if k != qual}
+                st0 = State({}, {}, [])
+                me = verify.mk_circuit(ex, st0, "self")
+                st0.pc.append(spec.typed(ctx, st0.g(me)))
+                n = _arg(ex, "str", "n")
+                t = TypeV(ctx.fresh("node_type", ctx.T))
+                fi, fo = shapes[fi_shape](ex, "fanin"), shapes[fo_shape](ex, "fanout")
+                outp = ctx.fresh("output", z3.BoolSort())
+                bind = {"self": me, "n": n, "node_type": t, "fanin": fi, "fanout": fo, "output": outp, "uid": uid}
+                body = verify.bind_and_run(ex, fn, st0, bind)
+                specs = verify.run_summary(ex, layer1.SUMMARIES[qual], st0, me, [n, t], {"fanin": fi, "fanout": fo, "output": outp, "uid": uid})
+                verify.refine_vcs(ex, label, st0, body, specs)
+                info["variants"].append(label)
+        return info
+    return run
+
+
+TASKS["layer1/Circuit.add[default]"] = add_task(False)
+TASKS["layer1/Circuit.add[uid]"] = add_task(True)
